@@ -496,6 +496,10 @@ fn any_fault_on(r: &RunResult, path: &str) -> bool {
 }
 
 fn write_events_on(r: &RunResult, path: &str) -> Vec<String> {
+    if path.is_empty() {
+        // events on descriptors outside the world carry an empty path: "" names nothing
+        return Vec::new();
+    }
     r.trace
         .iter()
         .filter_map(|e| match &e.kind {
@@ -799,7 +803,15 @@ pub fn judge(s: &Scenario, r: &RunResult) -> Judged {
     for (h, vd) in hist.iter().zip(&verdicts) {
         if let Verdict::Failed(_) = vd {
             for f in lenient_files(&h.stdout) {
+                // (what a lenient reading finds in a reply that does not decode can be any bytes: names that no
+                // file in the world can have say nothing about the world)
+                if outlandish_path(&f.path) {
+                    continue;
+                }
                 let lp = landing_path(&meta.output_dir, &String::from_utf8_lossy(&f.path));
+                if lp.is_empty() {
+                    continue;
+                }
                 if !final_bytes.contains_key(&lp) {
                     forbidden.insert(lp);
                 }
